@@ -222,6 +222,7 @@ def no_mutable_statics(run, rule, F):
 
 ALLOWED_EXTERNALS = {
     'memset': 'fill(): clears a byte buffer',
+    'memcmp': 'TransitionT ==/!=: compares the payload bytes of two transitions (deterministic, allocation-free)',
     'operator new': 'reserved placement form only (checked separately)',
     'type_index': 'std::type_index constructed from typeid (debug/report features)',
 }
